@@ -109,6 +109,8 @@ def run(copy, harnesses, jobs=8, timeout=3000, extra=None, target_dir=None, unwi
             status = 'ok'
         elif 'VERIFICATION:- FAILED' in part:
             status = 'failed'
+            if 'out of memory' in part or ('CBMC failed' in part and 'Failed Checks' not in part) or 'CBMC timed out' in part:
+                status = 'undecided'
         failed_checks = re.findall(r'Failed Checks: (.*)', part)
         unwind_fail = any('unwinding assertion' in c for c in failed_checks)
         mt = re.search(r'Verification Time: ([\d.]+)s', part)
